@@ -22,10 +22,12 @@
 From GV Require Import Prelude.Base.
 From GVgen Require Import C20_Flags.   (* tipper_units_broken: read from the source under test on every run *)
 
-Inductive family := FEM | FTEM | FLarge | FLargeTEM | FTipper | FDC.
+(* FEM / FTEM: moving-loop ground surveys; FAirEM / FAirTEM: airborne surveys (the only classes with set_metadata: pitch, roll ...) *)
+Inductive family := FEM | FTEM | FLarge | FLargeTEM | FTipper | FDC | FAirEM | FAirTEM.
 Inductive role := RA | RB.      (* RA: receivers / potential electrodes ; RB: transmitters / base stations / current electrodes *)
 
-Definition is_tem (f : family) : bool := match f with FTEM | FLargeTEM => true | _ => false end.
+Definition is_tem (f : family) : bool := match f with FTEM | FLargeTEM | FAirTEM => true | _ => false end.
+Definition is_airborne (f : family) : bool := match f with FAirEM | FAirTEM => true | _ => false end.
 Definition is_large (f : family) : bool := match f with FLarge | FLargeTEM => true | _ => false end.
 Definition is_dc (f : family) : bool := match f with FDC => true | _ => false end.
 
@@ -182,17 +184,23 @@ Definition em_link (s : st) (e p : ent) : st :=
   let s1 := set_ents s (put_ent e1 (ents s)) in
   em_edit s1 e1 (key_of (rol p)) (VU (uid p)).
 
-(* TEM waveform setter: the nested dict is updated in place *)
+(* TEM waveform setter: when the Waveform block carries a "Timing mark" (key 0 of the nested dict; `self.timing_mark is not None`)
+   the nested dict is updated in place, else a new dict {"Timing mark": 0.0, "Discretization": z} replaces the entry *)
 Definition em_wave (s : st) (e : ent) (z : Z) : st :=
   let '(l, s1) := em_md s e in
-  match dget KW (hget l (heap s1)) with
-  | Some (VRef wl) =>
-      let s2 := set_wheap s1 (hset wl (dset 1 z (hget wl (wheap s1))) (wheap s1)) in
-      em_edit s2 (refresh s2 e) KW (VRef wl)
-  | _ =>
+  let fresh :=
       let wl := next s1 in
       let s2 := bump (set_wheap s1 (hset wl [(0, 0%Z); (1, z)] (wheap s1))) in
-      em_edit s2 (refresh s2 e) KW (VRef wl)
+      em_edit s2 (refresh s2 e) KW (VRef wl) in
+  match dget KW (hget l (heap s1)) with
+  | Some (VRef wl) =>
+      match dget 0 (hget wl (wheap s1)) with
+      | Some _ =>
+          let s2 := set_wheap s1 (hset wl (dset 1 z (hget wl (wheap s1))) (wheap s1)) in
+          em_edit s2 (refresh s2 e) KW (VRef wl)
+      | None => fresh
+      end
+  | _ => fresh
   end.
 
 (* TEM timing_mark setter: when a waveform discretization exists (key 1 of the nested dict) the nested dict is updated in
@@ -474,7 +482,7 @@ Definition step (s : st) (o : op) : res st :=
       end
   | OParam a kv kp v =>
       match at_pos s a with
-      | Some e => if is_dc (fam e) then Err EBadOp else Ok (em_param s e kv kp v)
+      | Some e => if is_airborne (fam e) then Ok (em_param s e kv kp v) else Err EAttribute   (* set_metadata exists on AirborneEMSurvey only *)
       | None => Err ENoEntity
       end
   | ONest a k sub z =>
